@@ -210,7 +210,10 @@ def run(chk):
                 together = api.solve(gen.build_scene(MX, sdc, far))
                 for a in far:
                     alone = api.solve(gen.build_scene(MX, sdc, [a]))
-                    bad = api.compare({a[0]: together[a[0]]}, alone, rtol=1e-5, atol=1e-7)
+                    # (a trailing vortex does not decay along its own length - C13_influence_decays: |K| h <= 2 with h the distance from the
+                    # wake *line* - so an aircraft that happens to lie near the far-away one's wake line still feels it a little: the residual
+                    # influence is allowed relative to the largest load, not to each small component)
+                    bad = api.compare({a[0]: together[a[0]]}, alone, rtol=1e-5, atol=1e-7, scale_atol=2e-6)
                     if bad:
                         chk.violation("isolation", dict(kind="multi", what="isolation limit", scene=sdc, aircraft=far, which=a[0], differences=bad[:8]))
                         break
